@@ -23,7 +23,7 @@ ASSUMPTIONS = ['brute-force oracle limited to joints of <= 16384 cells',
                'float comparison rtol max(1e-7, 256*eps*max|potential|), atol 1e-9*total; trajectory calls whose parameters exceed 1e8 are counted but not judged']
 PLAN = {
     'quick': dict(cases=640, budget_s=50, case_timeout=60, min_cases=150),
-    'thorough': dict(cases=40000, budget_s=900, case_timeout=120, min_cases=8000),
+    'thorough': dict(cases=40000, budget_s=600, case_timeout=120, min_cases=6666),
 }
 
 RTOL, ATOLF = 1e-7, 1e-9
